@@ -3,6 +3,7 @@ import LZ4V.Proofs.WRProof
 import LZ4V.Properties.C20
 import LZ4V.Proofs.LegacyProof
 import LZ4V.Proofs.CliFrameProof
+import LZ4V.Proofs.CliLinkedProof
 /-!
 # C04 — the CLI round-trips every file under every option set, deterministically
 
@@ -77,6 +78,16 @@ theorem default_archive_round_trips (E : LZ4V.Spec.FrameL.Env) (ok : LZ4V.Model.
   cases ha : LZ4V.Model.CliFrame.archive E hashOf mt o src with
   | none => rw [ha] at hs; cases hs
   | some a => exact ⟨a, rfl, LZ4V.Model.CliFrame.archive_decodes E ok hashOf mt o hr src hn a ha⟩
+
+/-- **`lz4 -BD FILE`** (linked blocks, the fast levels, -B4..-B7, -BX, frame checksum on/off, content size; single-threaded build: the streaming path that
+    compresses every chunk from one source buffer and saves the history after it; multi-threaded build below 4 MiB and any build below one block: the
+    single-pass path over a stable source): whenever the archive model produces an archive it decodes, by the stream specification, to the input.
+    `Model/CliLinked.lean` over the linked-frame model; byte-identical to the real `lz4 -BD` of both builds on the recorded archives. -/
+theorem linked_archive_round_trips (E : LZ4V.Spec.FrameL.Env) (ok : LZ4V.Model.FrameFast.EnvOK E) (okL : LZ4V.Model.FrameLinked.EnvOKL E)
+    (hashOf : Array UInt8 → Bool → Nat → Nat) (mt : Bool) (o : LZ4V.Model.CliFrame.Opts) (hr : 4 ≤ o.bsidReq ∧ o.bsidReq ≤ 7) (src : List UInt8)
+    (hn : src.length < 256 ^ 8) (a : List UInt8) (h : LZ4V.Model.CliLinked.archive E hashOf mt o src = some a) :
+    LZ4V.Spec.FrameL.Decodes E [] a src :=
+  LZ4V.Model.CliLinked.archive_decodes E ok okL hashOf mt o hr src hn a h
 
 -- the premises are satisfiable, the sessions do something
 example : (Sparse.sparseSession [[0,0,0,0,0,0,0,0,0,0,0,0,0,0,0,0,65,66,67], [0,0,0], [], [0,0,0,0,0,0,0,0,1]]).content.length = 31 := by decide
